@@ -216,7 +216,9 @@ func (f *aggrMinFunc) Update(kv KVPair, args []Expression, ctx *ExecuteCtx) erro
 		f.isFloat = isFloat
 		return nil
 	}
-	if f.isFloat {
+	if f.isFloat || isFloat {
+		// One of the two values is a float, compare them as floats or the
+		// fraction is lost: min(-2, -2.5) should be -2.5
 		if f.fmin > fval {
 			f.imin = ival
 			f.fmin = fval
@@ -276,7 +278,9 @@ func (f *aggrMaxFunc) Update(kv KVPair, args []Expression, ctx *ExecuteCtx) erro
 		f.isFloat = isFloat
 		return nil
 	}
-	if f.isFloat {
+	if f.isFloat || isFloat {
+		// One of the two values is a float, compare them as floats or the
+		// fraction is lost: max(2, 2.9) should be 2.9
 		if f.fmax < fval {
 			f.imax = ival
 			f.fmax = fval
